@@ -5,7 +5,7 @@ From Coq Require Import NArith ZArith List Bool Lia ZifyN ZifyNat ZifyBool Sorte
 From Verif.lib Require Import Term.
 From Verif.model Require Import TrackerStore TrackerStoreCheck.
 From Verif.proofs Require Import TrackerStoreKeys TrackerStoreMap TrackerStoreRefine TrackerStoreRanges
-  TrackerStoreWrites TrackerStoreQueries TrackerStoreOnlineDelete.
+  TrackerStoreWrites TrackerStoreQueries TrackerStoreOnlineDelete TrackerStoreExpired.
 Import ListNotations.
 Open Scope N_scope.
 
@@ -28,7 +28,7 @@ Proof. intros H. eapply run_refines; [exact R_init|exact H]. Qed.
 (* the queries on which the two backends are meant to (and, once repaired, do) agree *)
 Definition agree_kind (q : query) : bool :=
   match q with
-  | QLimRes _ _ _ _ | QTop _ _ _ | QOnlAll _ | QHist _ | QStub _ _ | QExp _ _ => false
+  | QLimRes _ _ _ _ | QTop _ _ _ | QOnlAll _ | QHist _ | QStub _ _ => false
   | _ => true
   end.
 
@@ -48,6 +48,7 @@ Proof.
   - rewrite (q_resource_data s kv HR) by (try apply i63_u64; assumption). reflexivity.
   - rewrite (q_online_data_by_address s kv HR) by assumption. reflexivity.
   - rewrite (q_online_round_params_all s kv HR). reflexivity.
+  - apply expired_refines; [exact HR|apply i63_u64; assumption].
   - rewrite (q_load_txtail s kv HR). reflexivity.
   - rewrite (q_online s kv HR) by (try apply i63_u64; assumption). reflexivity.
   - rewrite (q_online_round_params s kv HR) by (apply i63_u64; assumption). reflexivity.
